@@ -130,7 +130,7 @@ def run(ctx):
             _, files = friquery_files(ctx, inst, k, b2)
             r2 = ctx.tlc(name, name + ".cfg", workers=1, extra_files=files, name="fq-neg2")
             if r1["ok"] or r2["ok"]:
-                raise common.MachineryError("FRI trace binding self-test failed (corrupted trace accepted)")
+                ctx.deferred.append("FRI trace binding self-test failed (corrupted trace accepted)")  # incomplete run (exit 2 unless a violation was reproduced); the remaining parts still run
             ctx.extra["trace_negative_selftests"] = 2
 
 
